@@ -416,6 +416,38 @@ pub fn run(ctx: &Ctx) -> i32 {
             }
         });
         col.layer("REAL values with exact partial sums, AVG / SUM bit for bit (all permutations)", done, complete, json!({"lines": elines, "statements": est}));
+        // TEXT arguments that repeat across groups (the same text on neighbouring lines of different groups): all 5040 orders
+        let tt = sut::make_tables("CREATE TABLE g(line = '^k=([a-z]+) s=([a-z]*)$', line[1] => k TEXT, line[2] => s TEXT);").unwrap();
+        let tlines = ["k=a s=curl", "k=b s=curl", "k=a s=wget", "k=b s=wget", "k=a s=curl", "k=c s=curl", "k=b s="];
+        let tst = ["SELECT k, COUNT(DISTINCT s), COUNT(s), MIN(s), MAX(s) FROM g GROUP BY k", "SELECT COUNT(DISTINCT s), COUNT(DISTINCT k), MIN(s) FROM g", "SELECT s, COUNT(DISTINCT k), COUNT(*) FROM g GROUP BY s", "SELECT k, array_length(array_unique(ARRAY_AGG(s))) FROM g GROUP BY k"];
+        let total = (perms.len() * tst.len()) as u64;
+        let tbases: Vec<Option<Vec<Vec<RVal>>>> = tst.iter().map(|s| match sut::run_batch(&tt, &sut::parse(s).unwrap(), &tlines) { Outcome::Ok(t) => Some(t.rows), _ => None }).collect();
+        let (done, complete) = par_for_budget(ctx, total, 64, |idx| {
+            let si = idx as usize % tst.len();
+            let perm = &perms[idx as usize / tst.len()];
+            col.eval(1);
+            col.nontrivial(h64(&("text-args", si, perm)));
+            let lines: Vec<&str> = perm.iter().map(|i| tlines[*i]).collect();
+            let got = match sut::run_batch(&tt, &sut::parse(tst[si]).unwrap(), &lines) {
+                Outcome::Ok(t) => Some(t.rows),
+                _ => None,
+            };
+            let same = match (&tbases[si], &got) {
+                (Some(a), Some(b)) => exact(a, b),
+                _ => false,
+            };
+            if !same {
+                col.fail(fail(
+                    format!("order-dependent:text-arguments:{}", si),
+                    format!("`{}` over TEXT arguments that repeat across groups: result for line order {:?} differs from the result for the original order", tst[si], perm),
+                    json!({"law": "text-args", "stmt": si, "statement": tst[si], "perm": perm, "history": []}),
+                    json!(tbases[si].as_ref().map(|r| rows_json(r))),
+                    json!(got.as_ref().map(|r| rows_json(r))),
+                    perm.len() as u64,
+                ));
+            }
+        });
+        col.layer("TEXT arguments repeating across groups (all permutations)", done, complete, json!({"lines": tlines, "statements": tst}));
     }
     // file order: the result over files [a, b] equals the result over [b, a] also when a file starts with a byte order
     // mark, a blank line or a CR-terminated line
